@@ -82,6 +82,18 @@ def cmp_vec(impl, model):
     return True
 
 
+def cmp_abs_c(impl, model):
+    """complex vectors compared by magnitude only"""
+    if not (impl.startswith('ok ') and model.startswith('ok ')):
+        return impl == model
+    a, b = parse_flist(impl.split(' ')[-1]), parse_flist(model.split(' ')[-1])
+    if len(a) != len(b):
+        return False
+    ma = [math.hypot(a[i], a[i + 1]) for i in range(0, len(a), 2)]
+    mb = [math.hypot(b[i], b[i + 1]) for i in range(0, len(b), 2)]
+    return close_gen(ma, mb)
+
+
 def mk_cmp_phase(weights, tol=1e-6):
     """phases compared on the circle; entries whose cross-spectrum is tiny (weight 0) are ill-conditioned and skipped"""
     def cmp(impl, model):
@@ -375,10 +387,18 @@ def cases_of(sc, R, si):
             w = phase_weights(fxy, lambda pos: (pos[0], pos[1], li + pos[2]), p.shape)
             g = [twopif[li + k] for _ in range(nch * nch) for k in range(p.shape[-1])]
             add('delay', 'ok %d %d %s' % (li, ui, flist(p.reshape(-1))), pre + '/func/delay', 'f', cmp=mk_cmp_delay(g, w))
+    # the band-averaged coherency averages raw angles: a bin whose cross-spectrum sits on the negative real axis
+    # (DC, Nyquist) flips between +pi and -pi with rounding; then only the magnitude is compared
+    bl = 1 if lb == 0 else int(np.searchsorted(f, lb, 'left'))
+    bu = len(f) if ub is None else int(np.searchsorted(f, ub, 'right'))
+    band = np.array([fxy[i, j, bl:bu] for i in range(nch) for j in range(i + 1, nch)])
+    wrap_safe = band.size > 0 and bool(np.all(np.abs(band) > 1e-6 * np.abs(fxy).max()) and
+                                       np.all(np.pi - np.abs(np.angle(band)) > 1e-6))
     for what, conv in (('cohbavg', ok_r), ('cybavg', ok_c)):
         r = R[what]
         if isinstance(r, str) or np.all(np.isfinite(np.abs(r))):
-            add(what, r if isinstance(r, str) else conv(r), '%s/func/%s' % (pre, what), 'f')
+            add(what, r if isinstance(r, str) else conv(r), '%s/func/%s' % (pre, what), 'f',
+                cmp=cmp_vec if (what == 'cohbavg' or wrap_safe) else cmp_abs_c)
     if 'partial' in R and sc['kind'] == 'welch':
         r = R['partial']
         nov = sc['NFFT'] // 2 if sc['nov'] is None else sc['nov']
@@ -525,7 +545,8 @@ def judge(sc, R, gain_rng=None):
 
     def anti(p, name, obs):
         p = np.asarray(p)
-        q = p + np.transpose(p, (1, 0, 2))
+        with np.errstate(all='ignore'):
+            q = p + np.transpose(p, (1, 0, 2))
         off = ~np.eye(nch, dtype=bool)
         q = q[off]
         q = q[np.isfinite(q)]
